@@ -135,6 +135,9 @@ def run(chk):
             if rnd.random() < 0.4 and n > 3:
                 k = rnd.choice([1, 3, 4, 10, n // 2, max(1, n - 2)])
                 name = name[:n - k - 1] + "." + "".join(rnd.choice(CH["plain"]) for _ in range(k))
+            if rnd.random() < 0.15:        # names beginning like a DOS device name get a character appended: the length bound holds for them too
+                dev = rnd.choice(["CON", "PRN", "AUX", "NUL", "COM1", "LPT9", "CONTENTS", "nul", "COM0"])
+                name = (dev + name)[:max(n, len(dev))] if rnd.random() < 0.7 else dev + rnd.choice(["", ".txt", " ", "."])
             sub = rnd.choice(["", "sub dir", "x.y"])
             dd = os.path.join(d, sub) if sub else d
             os.makedirs(dd, exist_ok=True)
